@@ -5,7 +5,7 @@ for DESIGN.md."""
 import json, os, re, glob
 V = "/verif"
 res = {}
-for log in sorted(glob.glob(V + "/work/try_all*.log"), key=os.path.getmtime):
+for log in sorted(glob.glob(V + "/work/try_*.log"), key=os.path.getmtime):
     for line in open(log):
         m = re.match(r"RESULT (\S+)((?: C\d+:\d)+)", line)
         if m:
